@@ -1,4 +1,4 @@
-import EupsModel.Model.Setup
+import EupsModel.Lemmas.SetupInverse
 /-! C02 — unsetup is the inverse of setup; a failing request leaves the environment as it found it.
 Model: `EupsModel/Model/Setup.lean` (shared with C01, C04). -/
 namespace EupsModel.C02
@@ -85,5 +85,130 @@ theorem C02_inverse_not_full_contained :
   have := h.2.2.1 PATH
   revert this
   decide +kernel
+
+/-! ## clause 1, positive part -/
+
+/-- the closure of the request, over-approximated: the names a path of dependency lines (of any declared version,
+under any guard) leads to from the requested name -/
+def Reach (db : Db) (top : Name) (n : Name) : Prop := ∃ k, Within db top k n
+
+/-- `Fresh`: nothing of the closure is in the prior environment — no record, no `<P>_DIR`, no own element of a closure
+product in any path variable, and no variable that a table of the closure `envSet`s is defined (D15a / D15b are its
+two negations) -/
+structure Fresh (db : Db) (r : Request) (e0 : Setup.Env) : Prop where
+  recs : ∀ n, Reach db r.name n → e0.rec? n = none
+  dirs : ∀ n, Reach db r.name n → aget e0.dirs n = none
+  paths : ∀ var p rel, Elem.own p rel ∈ e0.pathOf var → ¬ Reach db r.name p.1
+  vars : ∀ var, SetVar db (Reach db r.name) var → aget e0.vars var = none
+
+open Classical in
+/-- `setup p; unsetup p` restores the environment (the property's `≈`: path variables as duplicate-free lists) — for
+own-directory tables over a `NameDag` database, from a residue-free environment that is `Fresh` for the request,
+**provided no product of the closure is left set up** (`hrecs`).  That proviso is the whole of what can go wrong: known
+finding D33 (a version conflict combined with `-j`) is a run in which it fails.  Every flag combination, any fuel,
+bystanders set up before keep everything they had (order included). -/
+theorem C02_inverse_partial (db : Db) (rank : Name → Nat) (hdag : NameDag db rank) (hown : OwnTables db)
+    (fuel1 fuel2 : Nat) (r : Request) (e0 : Setup.Env) (s1 s2 : St)
+    (hwell : WellOwned (r.cfg db) e0) (hres : NoResidue Empty e0) (hfresh : Fresh db r e0)
+    (h1 : runSetup db fuel1 r e0 = .ok s1) (h2 : runUnsetup db fuel2 r s1.env = .ok s2)
+    (hrecs : ∀ n, Reach db r.name n → s2.env.rec? n = none) : s2.env.approx e0 := by
+  let cfg := r.cfg db
+  let S : Name → Prop := Reach db r.name
+  have hcl : ClosedAt cfg (fun _ n => S n) := within_closedAt_unbounded cfg r.name
+  have hS0 : S r.name := ⟨0, Within.root⟩
+  have ha : ∀ e : Setup.Env, AlreadyOK cfg.db (St.init e).already := by
+    intro e n d x h; simp [St.init, aget] at h
+  -- an invariant relative to `e0` goes through both runs
+  have both : ∀ P : Setup.Env → Prop, SubjInv cfg (fun _ n => S n) P → P e0 → P s2.env := by
+    intro P hP hp0
+    have hp1 : P s1.env := setup_subjInv cfg _ P hcl hP fuel1 true 0 false r.vro r.name r.version none (St.init e0) s1
+      hS0 (ha e0) hp0 h1
+    exact setup_subjInv cfg _ P hcl hP fuel2 false 0 false r.vro r.name none none (St.init s1.env) s2 hS0 (ha s1.env) hp1 h2
+  -- no residue after both runs
+  obtain ⟨hres1, hwell1⟩ := (setup_recOK cfg rank hdag fuel1).spec true 0 false r.vro r.name r.version none (St.init e0) s1
+    (ha e0) hwell hres h1
+  obtain ⟨hres2, _⟩ := setup_false_spec cfg fuel2 Empty 0 false r.vro r.name none none (St.init s1.env) s2 hwell1 hres1 h2
+  have nores : ∀ p : Prod, S p.1 → ¬ (Empty p ∨ s2.env.rec? p.1 = some p.2) := by
+    intro p hp h
+    rcases h with h | h
+    · exact h
+    · rw [hrecs p.1 hp] at h; cases h
+  -- names outside the closure
+  have outside : ∀ m, ¬ S m → SameFor m e0 s2.env :=
+    fun m hm => both (SameFor m e0) (sameFor_subjInv cfg _ m (fun _ h => hm h) e0) (SameFor.refl m e0)
+  refine ⟨?_, ?_, ?_, ?_⟩
+  · intro n
+    by_cases hn : S n
+    · rw [hrecs n hn, hfresh.recs n hn]
+    · exact (outside n hn).record
+  · intro n
+    by_cases hn : S n
+    · have := both (DirClean S) (dirClean_subjInv cfg S) (fun n hn _ => hfresh.dirs n hn)
+      rw [this n hn (hrecs n hn), hfresh.dirs n hn]
+    · exact (outside n hn).dir
+  · intro var
+    let f : Elem → Bool := fun x => match x with
+      | .own p _ => decide (¬ S p.1)
+      | .foreign _ => true
+    have hpart := both (fun e => ∀ var, partBy f e var = partBy f e0 var)
+      (partBy_subjInv cfg S hown f (fun p rel hp => by simp [f, hp]) e0) (fun _ => rfl) var
+    have hall2 : (s2.env.pathOf var).filter f = s2.env.pathOf var := by
+      apply List.filter_eq_self.mpr
+      intro x hx
+      cases x with
+      | foreign s => rfl
+      | own p rel =>
+        by_cases hp : S p.1
+        · exact absurd (hres2.path var p rel hx) (nores p hp)
+        · simp [f, hp]
+    have hall0 : (e0.pathOf var).filter f = e0.pathOf var := by
+      apply List.filter_eq_self.mpr
+      intro x hx
+      cases x with
+      | foreign s => rfl
+      | own p rel =>
+        have hp := hfresh.paths var p rel hx
+        show decide (¬ S p.1) = true
+        exact decide_eq_true hp
+    unfold partBy at hpart
+    rw [hall2, hall0] at hpart
+    exact hpart
+  · intro var
+    have hv := both (VarsInv db S e0) (varsInv_subjInv cfg S hown e0)
+      ⟨fun _ _ => rfl, fun var hvar => Or.inl (hfresh.vars var hvar)⟩
+    by_cases hvar : SetVar db S var
+    · rcases hv.mine var hvar with h | ⟨p, rel, h, hp⟩
+      · rw [h, hfresh.vars var hvar]
+      · exact absurd (hres2.vars var p rel h) (nores p hp)
+    · exact hv.other var hvar
+
+/-- single product: when no declared version of the requested product has a dependency line, the proviso holds and
+the round trip restores the environment -/
+theorem C02_inverse_single (db : Db) (rank : Name → Nat) (hdag : NameDag db rank) (hown : OwnTables db)
+    (fuel1 fuel2 : Nat) (r : Request) (e0 : Setup.Env) (s1 s2 : St)
+    (hnodep : ∀ d ∈ db.decls, d.name = r.name → ∀ g n o j v x, (g, Act.dep n o j v x) ∉ d.table)
+    (hwell : WellOwned (r.cfg db) e0) (hres : NoResidue Empty e0) (hfresh : Fresh db r e0)
+    (h1 : runSetup db fuel1 r e0 = .ok s1) (h2 : runUnsetup db fuel2 r s1.env = .ok s2) : s2.env.approx e0 := by
+  refine C02_inverse_partial db rank hdag hown fuel1 fuel2 r e0 s1 s2 hwell hres hfresh h1 h2 ?_
+  have honly : ∀ k n, Within db r.name k n → n = r.name := by
+    intro k n hw
+    induction hw with
+    | root => rfl
+    | step _ hd hn hg ih => subst ih; exact absurd hg (hnodep _ hd hn _ _ _ _ _ _)
+  intro n ⟨k, hk⟩
+  rw [honly k n hk]
+  obtain ⟨_, hwell1⟩ := (setup_recOK (r.cfg db) rank hdag fuel1).spec true 0 false r.vro r.name r.version none (St.init e0) s1
+    (by intro n d x h; simp [St.init, aget] at h) hwell hres h1
+  exact setup_false_unsets (r.cfg db) fuel2 0 false r.vro r.name none none (St.init s1.env) s2 hwell1 h2
+
+/-- the hypotheses are satisfiable and the conclusion is not vacuous: `dbA` with a foreign-only `PATH` -/
+example : OwnTables dbA ∧ NameDag dbA (fun _ => 0) ∧
+    Fresh dbA reqA { Setup.Env.empty with paths := [(PATH, [.foreign [47, 117]])] } := by
+  refine ⟨ownTables_of_check _ (by decide +kernel), nameDag_of_check _ _ (by decide +kernel), ?_⟩
+  · refine ⟨fun _ _ => rfl, fun _ _ => rfl, ?_, fun _ _ => rfl⟩
+    intro var p rel h
+    by_cases hv : var = PATH
+    · subst hv; simp [Setup.Env.pathOf, aget] at h
+    · simp [Setup.Env.pathOf, aget, Ne.symm hv] at h
 
 end EupsModel.C02
